@@ -22,6 +22,7 @@ done={
  'C15':('model_checking',"explicit-state bounded model checking against real sockets: all lock-step histories up to depth D over an 11-symbol connection/command alphabet are executed against the unmodified TCP/TLS server tasks, every connection is probed after every event and compared with a reference session tracker","histories are exhaustive within the stated depth / deviation bound; the kernel scheduler is real, so events are applied in lock-step with observable gates and a failing history must fail three times before it is reported"),
  'C16':('exploration',"exhaustive enumeration: all strings up to length L over an 11-symbol alphabet for the wildcard parser, the full wildcard x address lattice for the matcher, and every cell of {TCP, TLS, TLS+authz} x {create_*, spawn_*, C ABI} x filters x source addresses over real loopback aliases","finite spaces enumerated completely within the stated alphabet / lattice; server cells run on real sockets and a failing cell must fail twice"),
  'C17':('model_checking',MC,"all 256 destinations x 27 request kinds x 4 unit maps x 2 framings on fresh sessions plus all sequences up to depth D over a 12-symbol broadcast/unicast alphabet"),
+ 'C18':('exploration',"differential exhaustive enumeration over finite tables: every client operation x outcome class x exception code, every write callback x WriteResult value, every decode level and observable enum value is run through the extern \"C\" functions and through the Rust API against identical scripted loopback peers","finite tables enumerated completely (thorough: all 256 exception codes for all 8 operations and all 256 raw codes); real sockets and real time, so timing assertions are one-sided with generous ceilings"),
  'C19':('model_checking',"(1) explicit-state exploration of all operation sequences up to depth D on the real C-ABI database against a reference map; (2) stateless model checking of thread interleavings: a cooperative scheduler with scheduling points at every handler-mutex acquisition and database read enumerates every schedule of four two-actor scenarios by DFS on the real code","map part: bounded depth, small index set; atomicity part: exhaustive over all schedules at the stated point granularity (the property text says stress-sampled; this replaces sampling by exhaustive scheduling)"),
  'C20':('model_checking',MC,"differential and reference-model oracle: every explored server sequence, framing stream (each chunking) and client event path is re-executed at the lowest and highest decode level and with a set_decode_level command inserted at every position (also between two chunks of one frame and during an outstanding transaction); all observations must be identical"),
 }
